@@ -1148,6 +1148,7 @@ func runOracle(c caseSpec) (fails []failure, created bool, outs []outcome) {
 				case "iat":
 					if o.I < len(w.file.IATBatches) {
 						b := &w.file.IATBatches[o.I]
+						okBatches[o.I] = true
 						if vo, vd := guarded(b.Validate); vo != outOK {
 							fail(k, "create:ok-but-invalid", "IAT "+vd)
 							return
@@ -1166,6 +1167,7 @@ func runOracle(c caseSpec) (fails []failure, created bool, outs []outcome) {
 				case "adv":
 					if o.I < len(w.batches) {
 						b := w.batches[o.I]
+						okBatches[o.I] = true
 						if vo, vd := guarded(b.Validate); vo != outOK {
 							fail(k, "create:ok-but-invalid", "ADV "+vd)
 							return
@@ -1225,6 +1227,63 @@ func runOracle(c caseSpec) (fails []failure, created bool, outs []outcome) {
 					if vo, vd := guarded(w.file.Validate); vo != outOK {
 						fail(k, "file:invalid-after-create", vd)
 						return
+					}
+				}
+				// IAT and ADV files: the same statement (numbers ascend and agree, every tabulated batch still
+				// validates after File.Create, the ADV file control is the sum over the ADV batch controls)
+				if len(okBatches) == len(c.Batches) && c.Kind != "std" {
+					prev := 0
+					for i := range w.file.IATBatches {
+						b := &w.file.IATBatches[i]
+						n := b.GetHeader().BatchNumber
+						if absent && n <= prev {
+							fail(k, "file:batch-numbers-not-ascending", fmt.Sprintf("IAT batch number %d after %d", n, prev))
+							return
+						}
+						prev = n
+						if n != b.GetControl().BatchNumber {
+							fail(k, "file:batch-number-header-control-differ", fmt.Sprintf("IAT batch %d: header %d, control %d", i, n, b.GetControl().BatchNumber))
+							return
+						}
+						if vo, vd := guarded(b.Validate); vo != outOK {
+							fail(k, "file:batch-invalid-after-file-create", "IAT "+vd)
+							return
+						}
+					}
+					var cnt, hash, db, cr int
+					for i, b := range w.file.Batches {
+						ac := b.GetADVControl()
+						if b.GetHeader().StandardEntryClassCode != ach.ADV || ac == nil {
+							continue
+						}
+						n := b.GetHeader().BatchNumber
+						if absent && n <= prev {
+							fail(k, "file:batch-numbers-not-ascending", fmt.Sprintf("ADV batch number %d after %d", n, prev))
+							return
+						}
+						prev = n
+						if n != ac.BatchNumber {
+							fail(k, "file:batch-number-header-control-differ", fmt.Sprintf("ADV batch %d: header %d, control %d", i, n, ac.BatchNumber))
+							return
+						}
+						if vo, vd := guarded(b.Validate); vo != outOK {
+							fail(k, "file:batch-invalid-after-file-create", "ADV "+vd)
+							return
+						}
+						cnt += ac.EntryAddendaCount
+						hash += ac.EntryHash
+						db += ac.TotalDebitEntryDollarAmount
+						cr += ac.TotalCreditEntryDollarAmount
+					}
+					if w.file.IsADV() {
+						fc := w.file.ADVControl
+						if fc.BatchCount != len(w.file.Batches) || fc.EntryAddendaCount != cnt || fc.EntryHash != hash%10000000000 ||
+							fc.TotalDebitEntryDollarAmountInFile != db || fc.TotalCreditEntryDollarAmountInFile != cr {
+							fail(k, "file:adv-control-mismatch", fmt.Sprintf("ADV file control %d,%d,%d,%d,%d recomputed batches=%d count=%d hash=%d debit=%d credit=%d",
+								fc.BatchCount, fc.EntryAddendaCount, fc.EntryHash, fc.TotalDebitEntryDollarAmountInFile, fc.TotalCreditEntryDollarAmountInFile,
+								len(w.file.Batches), cnt, hash%10000000000, db, cr))
+							return
+						}
 					}
 				}
 			} else if expect && !c.HdrBad {
